@@ -25,6 +25,7 @@
 #define POTASSCO_ASPIF_TEXT_H_INCLUDED
 #include <potassco/match_basic_types.h>
 #include <potassco/theory_data.h>
+#include <vector>
 #include <cstring>
 #include <string>
 namespace Potassco {
@@ -133,6 +134,7 @@ private:
 	virtual LitSpan     getCondition(Id_t condId) const = 0;
 	virtual std::string getName(Atom_t atomId)    const = 0;
 	std::string res_;
+	std::vector<const Id_t*> open_; // compound terms currently being written (guards against cyclic terms)
 };
 
 } // namespace Potassco
